@@ -16,14 +16,14 @@ import (
 
 // params are the tier's bounds.
 type params struct {
-	fams      []family
-	maxOrders int   // orders tried per diff: all n! when n! <= maxOrders, else maxOrders selected ones
-	strictMax int   // pairs with <= this many source lines in A and B together also get the fresh-copy/file-API/full-dump transition
-	allFaults bool  // pairs of <=1-line files: every faulty line (else the first line of each class) at every position; every byte as a read cut
-	bfsDepth  int   // diffs in a BFS chain
-	walkDepth int   // diffs in a physical walk
-	walkLines []int // the walk universe is the empty file and the one-line files of these source lines
-	skewMaxLines int // serial skew: pure-deletion pairs whose file A has at most this many source lines
+	fams         []family
+	maxOrders    int   // orders tried per diff: all n! when n! <= maxOrders, else maxOrders selected ones
+	strictMax    int   // pairs with <= this many source lines in A and B together also get the fresh-copy/file-API/full-dump transition
+	allFaults    bool  // pairs of <=1-line files: every faulty line (else the first line of each class) at every position; every byte as a read cut
+	bfsDepth     int   // diffs in a BFS chain
+	walkDepth    int   // diffs in a physical walk
+	walkLines    []int // the walk universe is the empty file and the one-line files of these source lines
+	skewMaxLines int   // serial skew: pure-deletion pairs whose file A has at most this many source lines
 }
 
 // ---------------------------------------------------------------- findings
@@ -136,6 +136,9 @@ func (f *findings) report(w *world) {
 		if dominated(it.x) {
 			nonMinimal++
 			continue
+		}
+		if os.Getenv("VERIF_C08_LIST") != "" { // development aid: the run itself lists only the first 20 violations
+			fmt.Fprintf(os.Stderr, "c08 reports %s\n", it.fp)
 		}
 		w.r.Violate(it.fp, it.x.detail, replayOf(w, it.x.li, it.x.path, it.x.diffs, it.x.how))
 	}
